@@ -7,9 +7,16 @@
   the points are built by the `new` constructors and handed to `ControlPoints::add`; `?` looks all four
   kinds up in the collection as it is at that moment. Response: the four final lists, then one `L:` item
   per lookup.
+
+  `tp <mode 0-3> <hex line> …`: a fresh `TimingPointsState`, `Mode: <mode>` fed through `parse_general`, then
+  every line through `parse_timing_points` (a token `g<hex>` goes through `parse_general` instead); response: per-line `ok` / `err:<kind>`, then the four lists of
+  the finished `TimingPoints`.
+  `gen <hex line> …`: the lines through `General::parse_general` on a fresh state; per-line results, then
+  the 14 fields.
 -/
 import RosuModel.Model.Cmds.Codec
 import RosuModel.Model.ControlPoints
+import RosuModel.Model.TimingDecode
 namespace Rosu
 
 def f64OfHex (s : String) : Float := Float.ofBits (UInt64.ofNat (natOfHex s))
@@ -67,8 +74,46 @@ def cpOps : ControlPoints Float → List String → List String → Option (Cont
     | some (cp', none) => cpOps cp' rest acc
     | none => none
 
+def fmtResults (rs : List String) : String :=
+  "r=" ++ (if rs.isEmpty then "-" else String.intercalate "," rs)
+
+def tpRun (st : TimingPointsState Float Float32) : List String → List String →
+    TimingPointsState Float Float32 × List String
+  | [], acc => (st, acc.reverse)
+  | h :: rest, acc =>
+    let r := if h.startsWith "g" then st.parseGeneral (textOf (h.drop 1).toString)
+             else parseTimingPoints st (textOf h)
+    match r with
+    | (.ok (), st') => tpRun st' rest ("ok" :: acc)
+    | (.error e, st') => tpRun st' rest (("err:" ++ e.tag) :: acc)
+
+def genRun (st : GeneralState Float Float32) : List String → List String →
+    GeneralState Float Float32 × List String
+  | [], acc => (st, acc.reverse)
+  | h :: rest, acc =>
+    match parseGeneral st (textOf h) with
+    | (.ok (), st') => genRun st' rest ("ok" :: acc)
+    | (.error e, st') => genRun st' rest (("err:" ++ e.tag) :: acc)
+
+def fmtGeneral (g : GeneralState Float Float32) : String :=
+  "audio=" ++ hexStr g.audioFile ++ " lead=" ++ fx g.audioLeadIn ++ " preview=" ++ toString g.previewTime ++
+  " bank=" ++ toString g.defaultSampleBank.idx ++ " vol=" ++ toString g.defaultSampleVolume ++
+  " stack=" ++ (if g.stackLeniency.isNaN then "nan" else hex32 g.stackLeniency) ++
+  " mode=" ++ toString g.mode.idx ++
+  " flags=" ++ b01 g.letterboxInBreaks ++ b01 g.specialStyle ++ b01 g.widescreenStoryboard ++
+    b01 g.epilepsyWarning ++ b01 g.samplesMatchPlaybackRate ++
+  " countdown=" ++ toString g.countdown.idx ++ " offset=" ++ toString g.countdownOffset
+
 def dispatchTiming (toks : List String) : Option String :=
   match toks with
+  | "tp" :: mode :: lines =>
+    let st0 : TimingPointsState Float Float32 := TimingPointsState.create
+    let st1 := (st0.parseGeneral ("Mode: " ++ mode).toList).2
+    let (st, rs) := tpRun st1 lines []
+    some (fmtResults rs ++ " " ++ fmtControlPoints st.finish.2)
+  | "gen" :: lines =>
+    let (g, rs) := genRun GeneralState.default lines []
+    some (fmtResults rs ++ " " ++ fmtGeneral g)
   | "cpops" :: ops =>
     some (match cpOps ControlPoints.empty ops [] with
       | some (cp, ls) => fmtControlPoints cp ++ String.join (ls.map (" " ++ ·))
